@@ -551,6 +551,12 @@ def gen_tree(rng, maxnodes=14, maxdepth=4):
                     ops.append(("addprefix", i, p, rng.choice(URIS)))
         elif rng.random() < 0.15:
             ops.append(("addprefix", i, rng.choice(["p", "q"]), rng.choice(URIS)))
+        if rng.random() < 0.2:
+            # a prefixed attribute and (sometimes) the unprefixed one of the same local name
+            n0 = rng.choice(["k", "m"])
+            ops.append(("addattr", i, rng.choice(["p:", "q:"]) + n0, rng.choice(VALUES)))
+            if rng.random() < 0.6:
+                ops.append(("set", i, n0, rng.choice(VALUES)))
         for _ in range(rng.choice([0, 0, 0, 1, 1, 2])):
             if rng.random() < 0.5:
                 ops.append(("set", i, rng.choice(ATTRN), rng.choice(VALUES)))
@@ -654,7 +660,13 @@ class Picker(object):
             elif r < 0.485:
                 op = ("prune", self.inner() if rng.random() < 0.7 else 0)
             elif r < 0.53:
-                op = ("set", self.anynode(), rng.choice(ATTRN), rng.choice(VALUES))
+                x = self.anynode()
+                pref = [a.name for a in o[x].attributes if a.prefix is not None]
+                if pref and rng.random() < 0.5:
+                    # the unprefixed twin of a prefixed attribute the element carries
+                    op = ("set", x, rng.choice(pref), rng.choice(VALUES))
+                else:
+                    op = ("set", x, rng.choice(ATTRN), rng.choice(VALUES))
             elif r < 0.57:
                 x = self.anynode()
                 names = [a.qname() for a in o[x].attributes] or ATTRN
@@ -774,7 +786,8 @@ SMALL_SETUP = [
     ("new", "r", None), ("new", "a", None), ("new", "a", None), ("new", "b", None),
     ("new", "c", None), ("new", "c", None), ("new", "a", None), ("new", "b", None), ("new", "c", None),
     ("addprefix", 0, "p", "u1"),
-    ("settext", 1, "t1"), ("settext", 2, "t2"), ("set", 3, "k", "v"), ("settext", 5, "t5"),
+    ("settext", 1, "t1"), ("settext", 2, "t2"), ("addattr", 2, "p:k", "x1"),
+    ("addattr", 3, "p:k", "x1"), ("set", 3, "k", "v"), ("settext", 5, "t5"),
     ("settext", 6, "t6"),
     ("append", 1, [4], False), ("append", 2, [5], False), ("append", 0, [1, 2, 3], True),
     ("append", 7, [8], False),
@@ -789,7 +802,8 @@ SMALL_OPS_CORE = [
     ("replace", 2, 5, [6], False),
     ("detachChildren", 0), ("detachChildren", 2),
     ("prune", 0),
-    ("set", 2, "k", "w"), ("unset", 3, "k"), ("settext", 2, None), ("settext", 5, None),
+    ("set", 2, "k", "w"), ("set", 3, "k", "w"), ("set", 3, "p:k", "w"), ("unset", 3, "k"),
+    ("settext", 2, None), ("settext", 5, None),
     ("rename", 2, "p:a"), ("rename", 1, "b"), ("setprefix", 2, "p", None),
     ("clone", 0), ("clone", 2),
 ]
@@ -1031,6 +1045,20 @@ def regression_probes():
     if not ok:
         back.append(("C19:childrenAtPath-ignores-leaf-namespace",
                      "childrenAtPath('a/q:b') on <r xmlns:q='u1'><a><b/><q:b/></a></r> does not return exactly q:b", obs))
+    try:
+        r = Element("r")
+        r.addPrefix("p", "u1")
+        r.set("p:k", "1")
+        r.set("k", "2")
+        r.set("k", "3")
+        got = [(a.qname(), str(a.value)) for a in r.attributes]
+        ok, obs = got == [("p:k", "1"), ("k", "3")], repr(got)
+    except Exception as e:     # noqa
+        ok, obs = False, "exception " + repr(e)
+    if not ok:
+        back.append(("C19:set-departs-from-reference",
+                     "set('k') on <r p:k='1'/> must add / update the unprefixed attribute k and leave p:k alone",
+                     obs))
     return back
 
 
@@ -1321,6 +1349,16 @@ def run(ck):
         n = first_bad_step(ck, pre, quirk, setup, done, obs, base, "c19_spec_ok")
         upto = n if n is not None else len(done) - 1
         op = done[upto]
+        if upto == 0:
+            # is it this step, or did the SETUP already build another tree?  Replay the setup one
+            # operation at a time as observed steps (from nothing) and take the first that departs.
+            try:
+                obs0, done0, base0 = run_history([], setup)
+                k = first_bad_step(ck, pre, quirk, [], done0, obs0, base0, "c19_spec_ok")
+            except GiveUp:
+                k = None
+            if k is not None:
+                setup, done, obs, upto, op = [], done0, obs0, k, done0[k]
         ck.failing_input(
             "C19:%s-departs-from-reference" % op[0],
             "after %s (step %d of the history) the tree is not the one obtained by applying the edits to the very "
@@ -1330,8 +1368,10 @@ def run(ck):
     ck.rule = ("histories run on real suds Element objects, observed after EVERY step (returned value; parent, "
                "children, prefix, name, expns, nsprefixes, attributes, text of every element held; plain() of "
                "every parentless element). (1) over the small tree r[a[c] a[c] b] + parentless a, b[c]: every "
-               "history of length 1 from a 52-operation catalogue and of length 2 from its 26-operation core "
-               "(thorough: length 2 / 3 / 4 from 52 / 26 / 13 operations), each followed by three lookups; quick "
+               "history of length 1 from a %d-operation catalogue and of length 2 from its %d-operation core "
+               "(thorough: length 2 / 3 / 4 from %d / %d / %d operations), each followed by three lookups; quick "
+               % (len(SMALL_OPS_CORE + SMALL_OPS_MORE), len(SMALL_OPS_CORE), len(SMALL_OPS_CORE + SMALL_OPS_MORE),
+                  len(SMALL_OPS_CORE), len(SMALL_OPS_CORE[::2])) +
                "also samples lengths 3 and 4; (2) random trees of depth <= 4, <= 14 nodes, sibling names drawn "
                "from a,a,a,b,b,c, prefixes p/q bound to u1..u3 at different levels, default namespaces, "
                "attributes and text, plus parentless spare nodes, x random histories of length 25, 12 and 5 "
